@@ -155,6 +155,10 @@ def item(av, i):
 
 def unmodelled_in(run, chk, rule, construct):
     """Turn unmodelled constructs met while analysing an anchored entry into an inconclusive obligation."""
+    ui = [e for e in run.I.events if e.kind == "uninit-read"]
+    for e in ui[:2]:
+        chk.ob(rule, construct + "[initialised]", "a buffer from np.empty is completely written before it is read", False, derived=e.what,
+               loc=e.loc, stmt=e.stmt, detail="the unwritten elements hold whatever was in memory")
     um = [e for e in run.I.events if e.kind == "unmodelled"]
     if um:
         chk.ob(rule, construct + "[modelled]", "every construct on the path is modelled", False,
